@@ -1,7 +1,9 @@
 mod fingerprint;
+mod logcap;
 mod plangen;
 mod oracles;
 mod props;
+mod rogue;
 mod runner;
 mod storemodel;
 mod world;
@@ -14,6 +16,7 @@ fn main() {
         }
     }));
     world::sweep_stale_scratch();
+    logcap::install();
     let args = match runner::parse_args() {
         Ok(a) => a,
         Err(e) => {
@@ -24,6 +27,8 @@ fn main() {
     let code = match args.id.as_str() {
         "C01" => props::c01::main(&args),
         "C02" => props::c02::main(&args),
+        "C04" => props::c04::main(&args),
+        "C05" => props::c05::main(&args),
         "C07" => props::c07::main(&args),
         "C08" => props::c08::main(&args),
         "C09" => props::store::main(&args, props::store::Focus::Rollback),
